@@ -62,6 +62,18 @@ fn warden(exp: Exp, dir: Dir, len: usize) -> AnyMsg {
     }
 }
 
+/// insert WARDEN_DATA messages of exact body lengths at given positions of the workload
+pub fn inject_wardens(wl: &mut Workload, exp: Exp, dir: Dir, sc: &Value) {
+    if let Some(a) = sc["warden"].as_array() {
+        for e in a {
+            let pos = (e[0].as_u64().unwrap_or(0) as usize).min(wl.msgs.len());
+            let len = e[1].as_u64().unwrap_or(0) as usize;
+            wl.msgs.insert(pos, warden(exp, dir, len));
+            wl.names.insert(pos, warden_name(dir).to_string());
+        }
+    }
+}
+
 pub fn warden_name(dir: Dir) -> &'static str {
     match dir {
         Dir::Client => "CMSG_WARDEN_DATA",
@@ -188,7 +200,7 @@ impl Check for C02 {
             };
             let (ws, rs) = if rep == 0 { (Schedule::whole(), Schedule::whole()) } else { (Schedule::random(&mut sr, total, wfl == Flavour::Sync), Schedule::random(&mut sr, total, rfl == Flavour::Sync)) };
             return json!({"kind": "sweep", "label": format!("{}:{}:{}:len={:#x}", exp.name(), dir.name(), warden_name(dir), len),
-                "exp": exp.name(), "dir": dir.name(), "body_len": len, "frames": frames, "names": names,
+                "exp": exp.name(), "dir": dir.name(), "warden": [[0, len]], "frames": frames, "names": names,
                 "wflavour": wfl.name(), "rflavour": rfl.name(), "rentry": entry, "wsched": sched_json(&ws), "rsched": sched_json(&rs)});
         }
         let exp = *cf.pick(&Exp::ALL);
@@ -239,10 +251,8 @@ impl Check for C02 {
         o.count("model_frames", frames.len() as u64);
         o.count("model_frames_rejected", wl.rejected);
         o.count("model_frames_decode_panic", wl.decode_panics);
+        inject_wardens(&mut wl, exp, dir, sc);
         if sc["kind"] == "sweep" {
-            let len = sc["body_len"].as_u64().unwrap_or(0) as usize;
-            wl.msgs.insert(0, warden(exp, dir, len));
-            wl.names.insert(0, warden_name(dir).to_string());
             o.count("sweep_runs", 1);
         }
         if wl.msgs.is_empty() {
@@ -255,6 +265,44 @@ impl Check for C02 {
     fn shrink(&self, sc: &Value) -> Vec<Value> {
         shrink_session(sc)
     }
+    fn restrict(&self, sc: &Value, other: &Value) -> Option<Value> {
+        restrict_session(sc, other)
+    }
+}
+
+/// keep only the frames / wardens that also occur in `other` (a previously minimised scenario)
+pub fn restrict_session(sc: &Value, other: &Value) -> Option<Value> {
+    if sc["exp"] != other["exp"] || sc["dir"] != other["dir"] {
+        return None;
+    }
+    let keep: Vec<&str> = other["names"].as_array()?.iter().filter_map(|x| x.as_str()).collect();
+    let frames = sc["frames"].as_array()?;
+    let names = sc["names"].as_array()?;
+    let mut f2 = Vec::new();
+    let mut n2 = Vec::new();
+    for (f, n) in frames.iter().zip(names.iter()) {
+        if keep.contains(&n.as_str().unwrap_or("")) {
+            f2.push(f.clone());
+            n2.push(n.clone());
+        }
+    }
+    let other_has_warden = other["warden"].as_array().map(|a| !a.is_empty()).unwrap_or(false);
+    if f2.len() == frames.len() && (other_has_warden || sc["warden"].as_array().map(|a| a.is_empty()).unwrap_or(true)) {
+        return None;
+    }
+    if f2.is_empty() && !other_has_warden {
+        return None;
+    }
+    let mut s = sc.clone();
+    if s["kind"] == "session" {
+        s["label"] = Value::String(format!("{}:{}:{}", s["exp"].as_str().unwrap_or(""), s["dir"].as_str().unwrap_or(""), n2.iter().map(|x| x.as_str().unwrap_or("")).collect::<Vec<_>>().join("+")));
+    }
+    s["frames"] = Value::Array(f2);
+    s["names"] = Value::Array(n2);
+    if !other_has_warden && sc["kind"] != "sweep" {
+        s["warden"] = json!([]);
+    }
+    Some(s)
 }
 
 pub fn shrink_session(sc: &Value) -> Vec<Value> {
@@ -279,11 +327,22 @@ pub fn shrink_session(sc: &Value) -> Vec<Value> {
             s["names"] = Value::Array(n);
             out.push(s);
         }
-    } else if frames.len() == 1 && sc["kind"] == "sweep" {
+    } else if frames.len() == 1 && sc["warden"].as_array().map(|a| !a.is_empty()).unwrap_or(false) {
         let mut s = sc.clone();
         s["frames"] = json!([]);
         s["names"] = json!([]);
         out.push(s);
+    }
+    if let Some(w) = sc["warden"].as_array() {
+        if sc["kind"] != "sweep" {
+            for i in 0..w.len() {
+                let mut s = sc.clone();
+                let mut ww = w.clone();
+                ww.remove(i);
+                s["warden"] = Value::Array(ww);
+                out.push(s);
+            }
+        }
     }
     for key in ["wsched", "rsched"] {
         for t in shrink_sched(&sched_of(&sc[key])) {
@@ -319,6 +378,7 @@ pub fn run_session(o: &mut Outcome, exp: Exp, dir: Dir, wl: &Workload, sc: &Valu
     let ws = sched_of(&sc["wsched"]);
     let rs = sched_of(&sc["rsched"]);
     let entry_expect = sc["rentry"] == "expect";
+    let c05 = key.is_some();
     let mut log = Fnv::new();
     let mut crypto = key.map(|k| session_crypto(exp, k));
     // ---- write all messages onto one stream
@@ -326,6 +386,7 @@ pub fn run_session(o: &mut Outcome, exp: Exp, dir: Dir, wl: &Workload, sc: &Valu
     let mut shadow: Vec<u8> = Vec::new(); // plaintext stream (for the encrypted case)
     let mut bounds = Vec::new();
     let mut written: Vec<usize> = Vec::new(); // indices into wl.msgs that made it onto the stream
+    let mut write_failed = false;
     for (i, m) in wl.msgs.iter().enumerate() {
         let before = w.data.len();
         let enc = match (&mut crypto, dir) {
@@ -337,8 +398,20 @@ pub fn run_session(o: &mut Outcome, exp: Exp, dir: Dir, wl: &Workload, sc: &Valu
         let r = guarded(|| write_enum(m, wfl, enc, &mut w, 1 << 40));
         match r {
             Err((msg, loc)) => {
-                o.violate("writer_abort", format!("{}:{}:{}", panic_sig(&msg, &loc), exp.name(), dir.name()), format!("writing {} panicked: '{}' at {}", wl.names[i], msg, loc));
+                if c05 && guarded(|| write_plain(m)).map(|r| r.is_err()).unwrap_or(true) {
+                    // the plain writer fails on this value too: C02's domain, not a cipher property
+                    o.count("skipped_plain_writer_fails_too", 1);
+                } else {
+                    // size/bytes mismatches are attributed: does the value use an else-if flag group (known defect) or not
+                    let tag = if msg.contains("left == right") {
+                        if has_elseif_group(&m.debug()) { ":conditional-flag-branch".to_string() } else { format!(":{}", wl.names[i]) }
+                    } else {
+                        String::new()
+                    };
+                    o.violate("writer_abort", format!("{}:{}:{}{}{}", panic_sig(&msg, &loc), exp.name(), dir.name(), tag, if c05 { ":encrypted-only" } else { "" }), format!("writing {} panicked: '{}' at {}", wl.names[i], msg, loc));
+                }
                 log.str("wpanic");
+                write_failed = true;
                 // the stream is unusable after a failed write (cipher state, partial bytes): stop the session here
                 w.data.truncate(before);
                 break;
@@ -361,7 +434,10 @@ pub fn run_session(o: &mut Outcome, exp: Exp, dir: Dir, wl: &Workload, sc: &Valu
             match guarded(|| write_plain(m)) {
                 Ok(Ok(p)) => shadow.extend_from_slice(&p),
                 _ => {
-                    o.violate("writer_abort", format!("plain-writer-failed:{}", wl.names[i]), "plain writer failed where encrypted writer succeeded".into());
+                    // nothing to compare the ciphertext with: C02's domain
+                    o.count("skipped_plain_writer_fails", 1);
+                    write_failed = true;
+                    w.data.truncate(before);
                     break;
                 }
             }
@@ -394,11 +470,17 @@ pub fn run_session(o: &mut Outcome, exp: Exp, dir: Dir, wl: &Workload, sc: &Valu
         let msg = &plain_stream[pos..end];
         match parse_world_header(exp, dir, msg) {
             None => {
-                o.violate("header_truth", format!("short-message:{}", wl.names[i]), format!("message {} occupies {} bytes, less than a header", wl.names[i], msg.len()));
+                if !c05 {
+                    o.violate("header_truth", format!("short-message:{}", wl.names[i]), format!("message {} occupies {} bytes, less than a header", wl.names[i], msg.len()));
+                }
             }
             Some(h) => {
                 header_ranges.push((pos, pos + h.header_len));
                 let follows = msg.len() - h.size_len;
+                if c05 {
+                    pos = end;
+                    continue;
+                }
                 if h.size_field != follows {
                     o.violate("header_truth", format!("size-field:{}:{}:{}", exp.name(), dir.name(), wl.names[i]), format!("{}: size field says {} but {} bytes follow the size field", wl.names[i], h.size_field, follows));
                 }
@@ -451,6 +533,8 @@ pub fn run_session(o: &mut Outcome, exp: Exp, dir: Dir, wl: &Workload, sc: &Valu
     let mut r = SimReader::new(&stream, &rs);
     let budget = budget_for(stream.len(), &rs);
     let mut in_step = true;
+    let whole = Schedule::whole();
+    let mut pr = SimReader::new(&shadow, &whole);
     for (k, &i) in written.iter().enumerate() {
         let dec = match (&mut crypto, dir) {
             (Some(c), Dir::Client) => Some(&mut c.server_dec),
@@ -469,6 +553,86 @@ pub fn run_session(o: &mut Outcome, exp: Exp, dir: Dir, wl: &Workload, sc: &Valu
             }
         });
         let entry_name = if entry_expect { "expect" } else { "enum" };
+        if c05 {
+            // reference: the plain reader (same entry point, blocking, whole buffer) on the plaintext stream
+            let name2 = name.clone();
+            let refr = guarded(|| {
+                if entry_expect {
+                    read_expect(exp, dir, &name2, Flavour::Sync, None, &mut pr, budget).map(|x| x.0.result)
+                } else {
+                    Some(read_enum(exp, dir, Flavour::Sync, None, &mut pr, budget).result)
+                }
+            });
+            let pc = pr.consumed();
+            let verdict: Result<(), String> = match (&got, &refr) {
+                (Err((m1, l1)), Err((m2, l2))) => {
+                    if panic_sig(m1, l1) == panic_sig(m2, l2) {
+                        Ok(())
+                    } else {
+                        Err(format!("decrypting reader panics '{}' at {}, plain reader panics '{}' at {}", m1, l1, m2, l2))
+                    }
+                }
+                (Err((m1, l1)), Ok(_)) => Err(format!("decrypting reader panics ('{}' at {}) where the plain reader returns", m1, l1)),
+                (Ok(_), Err((m2, l2))) => Err(format!("plain reader panics ('{}' at {}) where the decrypting reader returns", m2, l2)),
+                (Ok((ro, _)), Ok(rp)) => {
+                    if ro.budget_exceeded {
+                        Err("decrypting reader did not complete within the step budget".into())
+                    } else {
+                        match (&ro.result, rp) {
+                            (_, None) => Ok(()),
+                            (Ok(a), Some(Ok(b))) => {
+                                if !a.same(b) {
+                                    Err(format!("decrypting reader returns a different {} than the plain reader", name))
+                                } else if r.consumed() != pc {
+                                    Err(format!("decrypting reader consumed {} bytes, plain reader {}", r.consumed(), pc))
+                                } else {
+                                    Ok(())
+                                }
+                            }
+                            (Err(a), Some(Err(b))) => {
+                                if a == b && r.consumed() == pc {
+                                    Ok(())
+                                } else {
+                                    Err(format!("decrypting reader: {} after {} bytes, plain reader: {} after {} bytes", a.short(), r.consumed(), b.short(), pc))
+                                }
+                            }
+                            (Ok(_), Some(Err(b))) => Err(format!("decrypting reader returns a message, plain reader fails with {}", b.short())),
+                            (Err(a), Some(Ok(_))) => Err(format!("decrypting reader fails with {}, plain reader returns the message", a.short())),
+                        }
+                    }
+                }
+            };
+            let body_len = bounds[k] - if k == 0 { 0 } else { bounds[k - 1] };
+            let lenclass = if body_len > 0x8000 { "large" } else { "small" };
+            if let Ok((ro, _)) = &got {
+                o.ticks += ro.polls;
+            }
+            match verdict {
+                Err(d) => {
+                    let comp = if name.contains("COMPRESSED") { name.as_str() } else { "" };
+                    o.violate("enc_vs_plain", format!("enc-vs-plain:{}:{}:{}:{}:{}:pos{}", exp.name(), dir.name(), entry_name, lenclass, comp, if k == 0 { "0" } else { "N" }), format!("message #{} ({}, {} bytes): {}", k, name, body_len, d));
+                    in_step = false;
+                    break;
+                }
+                Ok(()) => {
+                    let good = matches!(&got, Ok((ro, _)) if matches!(&ro.result, Ok(m) if m.same(&wl.msgs[i]))) && r.consumed() == bounds[k];
+                    if !good {
+                        // both readers agree but not on the written value: C02's domain; the stream is desynchronised, stop
+                        o.count("skipped_plain_reader_disagrees_with_writer", 1);
+                        in_step = false;
+                        break;
+                    }
+                    o.count("messages_read_back", 1);
+                    if k > 0 {
+                        o.count("probe_second_or_later_message_read", 1);
+                    }
+                    if lenclass == "large" {
+                        o.count("probe_large_message_decrypted", 1);
+                    }
+                    continue;
+                }
+            }
+        }
         match got {
             Err((msg, loc)) => {
                 o.violate("reader_abort", format!("{}:{}:{}", panic_sig(&msg, &loc), exp.name(), dir.name()), format!("reading back {} panicked: '{}' at {}", name, msg, loc));
@@ -528,7 +692,7 @@ pub fn run_session(o: &mut Outcome, exp: Exp, dir: Dir, wl: &Workload, sc: &Valu
         o.violate("alignment", format!("tail:{}:{}", exp.name(), dir.name()), format!("{} of {} stream bytes consumed after the last message", r.consumed(), stream.len()));
     }
     // C05: both cipher states in step: one more probe header
-    if let (Some(c), true) = (&mut crypto, in_step) {
+    if let (Some(c), true) = (&mut crypto, in_step && !write_failed) {
         let (e, d) = match dir {
             Dir::Client => (&mut c.client_enc, &mut c.server_dec),
             Dir::Server => (&mut c.server_enc, &mut c.client_dec),
@@ -576,6 +740,36 @@ pub fn run_session(o: &mut Outcome, exp: Exp, dir: Dir, wl: &Workload, sc: &Valu
 }
 
 thread_local! {
+    static ELSEIF_GROUPS: std::cell::RefCell<Vec<String>> = const { std::cell::RefCell::new(Vec::new()) };
+}
+
+/// does the Debug rendering of a library value show a populated else-if flag group
+pub fn has_elseif_group(dbg: &str) -> bool {
+    ELSEIF_GROUPS.with(|g| g.borrow().iter().any(|n| dbg.contains(n.as_str())))
+}
+
+fn collect_groups(ms: &[crate::wowm::Member], out: &mut Vec<String>) {
+    use crate::wowm::Member;
+    for m in ms {
+        match m {
+            Member::If(i) => {
+                let nested = i.members.iter().any(|m| matches!(m, Member::If(_)));
+                if (!i.else_ifs.is_empty() || nested) && i.conds.first().map(|c| c.op == "&").unwrap_or(false) {
+                    out.push(format!("{}: Some(", i.conds[0].val.to_lowercase()));
+                }
+                collect_groups(&i.members, out);
+                for (_, m) in &i.else_ifs {
+                    collect_groups(m, out);
+                }
+                collect_groups(&i.else_members, out);
+            }
+            Member::Optional(_, ms) => collect_groups(ms, out),
+            _ => {}
+        }
+    }
+}
+
+thread_local! {
     static OPCODES: std::cell::RefCell<Option<std::collections::HashMap<(String, Exp), u32>>> = const { std::cell::RefCell::new(None) };
 }
 
@@ -594,4 +788,11 @@ pub fn register_opcodes(ctx: &WorldCtx) {
         }
     }
     OPCODES.with(|c| *c.borrow_mut() = Some(m));
+    let mut groups = Vec::new();
+    for c in &ctx.corpus.containers {
+        collect_groups(&c.members, &mut groups);
+    }
+    groups.sort();
+    groups.dedup();
+    ELSEIF_GROUPS.with(|g| *g.borrow_mut() = groups);
 }
